@@ -51,6 +51,9 @@ package vanguard
 //@   ensures[C12] gsyntax(timeout) ==> err == nil || errIs(err, errNoTimeout)
 //@   ensures[C12] errIs(err, errNoTimeout) && gsyntax(timeout) ==> gvalue(timeout) > 8*3600000000000
 //@   ensures[C12] gsyntax(timeout) && gvalue(timeout) <= 8*3600000000000 ==> err == nil
+//@   loop 1 invariant[C12] 0 <= rangeiter && rangeiter < len(digits) && digits == timeout[:len(timeout)-1] && len(timeout) >= 1 && len(digits) <= 8
+//@   loop 1 invariant[C12] forall j in [0, rangeiter): '0' <= digits[j] && digits[j] <= '9'
+//@   loop 1 decreases len(digits) - rangeiter
 
 //@ func grpcEncodeTimeout
 //@   opt arith=checked
@@ -136,7 +139,7 @@ package vanguard
 
 // validRW: structural well-formedness. The delegate is the server's own writer, not another
 // vanguard responseWriter (nested transcoders are outside the verified configuration).
-//@ pred validRW(w) = w != nil && validOp(w.op) && w.delegate != nil && extern(w.delegate) && w.flusher != nil
+//@ pred validRW(w) = w != nil && validOp(w.op) && w.delegate != nil && extern(w.delegate) && w.flusher != nil && w.contentLen >= -1
 //@ |  && (typeIs(w.flusher, flusherNoError) ==> unbox(w.flusher, flusherNoError).f != nil)
 // rwInv: the state machine invariant, established by handle() and preserved by every method.
 //@ pred rwInv(w) = validRW(w)
@@ -248,7 +251,7 @@ package vanguard
 // an envelope (1..5 bytes outstanding) or inside a payload whose sink exists.
 //@ pred ewInv(w) = validEW(w) && (w.currentIsTrailer ==> w.rw.op.serverEnveloper != nil) && (w.initialized && w.err == nil ==>
 //@ |    (w.remainingBytes == -1 && w.current != nil && !w.writingEnvelope)
-//@ | || (w.remainingBytes >= 0 && (w.writingEnvelope ==> 1 <= w.remainingBytes && w.remainingBytes <= 5 && w.rw.op.serverEnveloper != nil)
+//@ | || (w.remainingBytes >= 0 && (w.writingEnvelope ==> 1 <= w.remainingBytes && w.remainingBytes <= 5)
 //@ |      && (!w.writingEnvelope ==> w.current != nil) && (w.writingEnvelope ==> !w.currentIsTrailer)))
 
 //@ func (*envelopingWriter).writeBytes
@@ -270,13 +273,13 @@ package vanguard
 
 //@ func (*envelopingWriter).handleEnvelopeWritten
 //@   requires validEW(w)
-//@   requires w.rw.op.serverEnveloper != nil
 //@   requires w.err == nil && w.initialized && !w.currentIsTrailer
 //@   ensures[C09] err != nil ==> w.rw.endWritten || w.err != nil
 //@   ensures[C10] err == nil ==> w.remainingBytes >= 0 && w.remainingBytes <= 4294967295 && !w.writingEnvelope && w.current != nil
 //@   ensures[C10] err == nil && w.currentIsTrailer ==> w.remainingBytes <= limitOf(w.rw.op)
 //@   ensures validEW(w) && w.rw == old(w.rw) && w.initialized && (old(w.rw.endWritten) ==> w.rw.endWritten)
 //@   ensures err == nil ==> w.err == nil
+//@   ensures w.currentIsTrailer ==> w.rw.op.serverEnveloper != nil
 //@   modifies w.writingEnvelope, w.current, w.mustReleaseCurrent, w.currentIsTrailer, w.trailerIsCompressed, w.remainingBytes, w.err, #RWEND
 
 //@ func (*envelopingWriter).handleTrailer
@@ -289,7 +292,6 @@ package vanguard
 
 //@ func (*envelopingWriter).Write
 //@   requires ewInv(w) && (!w.initialized ==> w.err == nil && w.current == nil && !w.writingEnvelope && !w.mustReleaseCurrent && !w.currentIsTrailer)
-//@   requires w.rw.op.serverEnveloper != nil
 //@   ensures[C08] 0 <= n && n <= len(data) && (err == nil ==> n == len(data))
 //@   ensures ewInv(w) && w.initialized && w.rw == old(w.rw) && (old(w.rw.endWritten) ==> w.rw.endWritten)
 //@   loop 1 invariant[C08] written >= 0 && written + len(data) == len(old(data))
